@@ -93,3 +93,8 @@ add("C12", "E2",
     "A parsed FlatEx must print its source text; the printed text of every reached state must parse back (same form) with the same variables and the same value (symbolically modulo AC for the symbolic data type whose Debug/FromStr round trip is total; numerically for f64 restricted to plain-decimal literals); the unparse -> parse map is iterated to closure; serde_json::to_string / from_str must preserve every flat expression.",
     "Known finding: derivatives keep variables that no longer occur in the printed text (listed in known_findings.jsonl).",
     "DESIGN.md §3 C12")
+add("C20", "E3+E2",
+    "stateless exploration of thread schedules of real exmex code under a controlled scheduler (shuttle coroutines, custom preemption-bounded depth-first scheduler, bound iterated 0..3/4), plus explicit-state exploration of sequential call histories and compile-time Send+Sync assertions",
+    "Bodies of 2-3 threads that evaluate a shared Arc<FlatEx>/Arc<DeepEx> (borrowing and consuming), parse the same and different texts with two operator factories that share operator names (flat, deep, default f64 and value tables with their lazily initialised global regexes), and convert/operate on a clone while others evaluate the original; every call-back into the harness data type, operator factory and literal matcher is a scheduling point; ALL schedules with at most b preemptions are executed and every thread's observations must equal the schedule-independent reference; the shared expression's structural dump must not change. All call sequences up to length 4/5 over 12 jobs in one process detect hidden state between calls. Each schedule of the <=1-preemption space of the default-table body is replayed in a fresh process (first-use initialisation). /verif/probe asserts Send + Sync.",
+    "Code between two call-backs runs atomically; lazy_static's Once is trusted; memory-ordering effects and data races on plain memory inside one segment are outside a cooperative scheduler's view. A recorded schedule is replayed twice and must give identical observations; divergence while replaying a prefix is a hard error.",
+    "DESIGN.md §3 C20")
